@@ -55,6 +55,18 @@ def popped_record(p):
     return None, None
 
 
+def _consults_owner_of(t, new, conv) -> bool:
+    """``t`` asks (the converter or a structure derived from it) who owns the prefix ``new``."""
+    for x in subterms(t):
+        if op(x) == "call" and x[2][:1] == (new,) and callee_name(x) in ("get_record", "get", "standardize_prefix"):
+            return True
+        if op(x) == "cmp" and x[1] in ("in", "not in") and x[2] == new:
+            return True
+        if op(x) == "item" and x[2] == new:
+            return True
+    return False
+
+
 def mentions_converter_knowledge(t, conv_terms) -> bool:
     for x in subterms(t):
         if op(x) == "attr" and x[2] in KNOWLEDGE and x[1] in conv_terms:
@@ -211,7 +223,7 @@ def d5(cx: Cx, ob: Ob) -> None:
         guards = [g for g in p.events if g.kind == "guard"]
         stores = [ev for ev in p.events if ev.kind == "store"]
         unknown = any(op(g.a) == "cmp" and g.a[1] in ("is", "==") and is_const(g.a[3], None) and g.b is True and any(x == old for x in subterms(g.a)) for g in guards)
-        clash = any(g.b is True and any(callee_name(x) == "get_record" and x[2][:1] == (new,) for x in subterms(g.a) if op(x) == "call") for g in guards)
+        clash = any(g.b is True and _consults_owner_of(g.a, new, conv) for g in guards)
         if unknown:
             seen_unknown = True
         if clash:
@@ -221,6 +233,26 @@ def d5(cx: Cx, ob: Ob) -> None:
             ob.site(f"{where(fn, guards[-1].line)} {fn.qualname}", "skip path (" + ("unknown old" if unknown else "clash") + ")")
             for ev in stores:
                 ob.violate(fn.qualname, where(fn, ev.line), f"a record is modified on the {'unknown-old' if unknown else 'clash'} path, which must leave everything untouched", detail="store-on-skip")
+    # a clash test must consult the converter, not the working dictionary records are popped from
+    popped = set()
+    for p in lp.body:
+        for ev in p.events:
+            if ev.kind == "bind" and op(ev.b) == "call" and callee_name(ev.b) == "pop" and op(ev.b[1]) == "attr":
+                popped.add(ev.b[1][1])
+    for p in lp.body:
+        for g in p.events:
+            if g.kind != "guard" or not any(x == new for x in subterms(g.a)):
+                continue
+            for x in subterms(g.a):
+                if op(x) == "call" and op(x[1]) == "attr" and x[1][1] in popped and callee_name(x) in ("get", "__getitem__", "pop") and callee_name(x) != "pop" or (op(x) == "item" and x[1] in popped) or (op(x) == "cmp" and x[1] in ("in", "not in") and x[3] in popped):
+                    ob.violate(
+                        fn.qualname,
+                        where(fn, g.line),
+                        "the clash test looks the new prefix up in the working dictionary from which already-processed records have been removed: a record that was popped (e.g. because its own pair was skipped) still owns its name but is no longer seen",
+                        witness="records a, b, c with remapping {'c': 'a', 'b': 'c'}: c->a is skipped (clash with a), then b->c finds no owner of c in the working dictionary and two records claim 'c'",
+                        detail="stale-clash-lookup",
+                    )
+                    break
     if not seen_unknown:
         ob.violate(fn.qualname, fn.where, "remap_curie_prefixes has no skip for pairs whose old prefix is unknown to the converter", detail="no-unknown-skip")
     if not seen_clash:
@@ -230,6 +262,6 @@ def d5(cx: Cx, ob: Ob) -> None:
         for p in lp.body:
             rec, _ = popped_record(p)
             for g in p.events:
-                if g.kind == "guard" and g.b is True and any(callee_name(x) == "get_record" and x[2][:1] == (new,) for x in subterms(g.a) if op(x) == "call"):
+                if g.kind == "guard" and g.b is True and _consults_owner_of(g.a, new, conv):
                     if rec is not None and not any(x == rec for x in subterms(g.a)):
                         ob.violate(fn.qualname, where(fn, g.line), "the clash test does not exempt the record's own names: remapping onto an existing synonym of the same record is skipped", detail="clash-own-synonym")
